@@ -2,6 +2,8 @@
 from lib import hexs
 
 MODULE = "DtailModel.Props.C15"
+# translated packages (tie G) this property's theorems rest on
+GEN_UNITS = ("Outfile",)
 GROUPS = ["C15"]
 LOGGER = "none"
 JOBS = 16
@@ -10,8 +12,8 @@ LEVEL_TEXT = ("Lean theorems over the operation sequence of WriteResult and ever
               "path holds the earlier content or the complete new result (and then the .query file holds the query), for every earlier "
               "state, result and crash point; with append earlier bytes are a prefix of every later state and a complete run adds the "
               "header only to an absent/empty file; tied to the code by running the real WriteResult under strace and comparing the "
-              "syscall sequence on the outfile paths with the model's operation list, plus SIGKILL injection at operation boundaries; c15.race: the client's two writers of one outfile (periodic reporter, final report) on the real GlobalGroupSet — the outfile is the single-writer result the moment the final write returns; a run whose syscall sequence no longer matches the model is killed at each of its file operations")
-TRUSTED = ["Lean 4 kernel", "axioms: propext, Quot.sound, Classical.choice (at most)", "overlay harness + dtmodel driver + this diff", "strace",
+              "syscall sequence on the outfile paths with the model's operation list, plus SIGKILL injection at operation boundaries; tie G: WriteResult, writeQueryFile, getOutfileFD, resultWriteUnformatted(Header) are translated on every run with every file operation recorded in order (C15_generated_writeresult_is_model_ops: when no operation fails the recorded history is the model's operation list, for every query, result and earlier file system; C15_generated_no_half_written: the crash theorem on the translated code), and the driver runs the translated WriteResult on every case; c15.race: the client's two writers of one outfile (periodic reporter, final report) on the real GlobalGroupSet — the outfile is the single-writer result the moment the final write returns; a run whose syscall sequence no longer matches the model is killed at each of its file operations")
+TRUSTED = ["Lean 4 kernel", "axioms: propext, Quot.sound, Classical.choice (at most)", "overlay harness + dtmodel driver + this diff", "strace", "Go->Lean translator (unit Outfile: os.OpenFile / WriteString / os.Rename / os.Remove become recorded operations whose failure is the parameter ext.ioErr, os.Stat and the rows of GroupSet.result are parameters, a nil query.Outfile is a guarded dereference) with its prelude GoRT",
            "modelled not verified: the OS (rename is atomic, a killed process loses nothing already written, O_TRUNC/O_APPEND semantics), "
            "fmt %f/%d rendering (integer-valued aggregates only), result row order for equal order keys (generated keys are distinct)"]
 ASSUMPTIONS = ["crashes happen between system calls (a write(2) of a few bytes to a regular file is not torn)"]
